@@ -239,15 +239,23 @@ impl<T> Queue<T> {
                 Ordering::Acquire,
             ) {
                 Ok(_) => {
+                    #[cfg(may_verif)]
+                    crate::verif::point(crate::verif::site::MPSC_PUSH_RESERVED, self as *const _ as usize);
                     // set the data
                     block.set(id, v);
+                    #[cfg(may_verif)]
+                    crate::verif::point(crate::verif::site::MPSC_PUSH_WRITTEN, self as *const _ as usize);
                     // the block may be released here by the consumer,
                     // so we need to use old_block to delay the drop
                     if id == BLOCK_MASK {
                         let new_block = BlockNode::new_box(block.start + BLOCK_SIZE * 2);
+                        #[cfg(may_verif)]
+                        crate::verif::point(crate::verif::site::MPSC_PUSH_BOUNDARY, self as *const _ as usize);
                         let next_block = unsafe { &mut *block.wait_next_block() };
                         // install the next-next block
                         next_block.next.store(new_block, Ordering::Release);
+                        #[cfg(may_verif)]
+                        crate::verif::point(crate::verif::site::MPSC_PUSH_BOUNDARY_LINKED, self as *const _ as usize);
                         self.tail.0.store(next_block, Ordering::Release);
                     }
                     return;
@@ -278,6 +286,8 @@ impl<T> Queue<T> {
         let data = match head.try_get(id) {
             Some(v) => v,
             None => {
+                #[cfg(may_verif)]
+                crate::verif::point(crate::verif::site::MPSC_POP_EMPTYCHECK, self as *const _ as usize);
                 if pop_index >= self.push_index() {
                     return None;
                 } else {
@@ -293,6 +303,8 @@ impl<T> Queue<T> {
             let old_block = unsafe { &mut *(self.old_block.get()) };
             old_block.replace(unsafe { Box::from_raw(head) });
 
+            #[cfg(may_verif)]
+            crate::verif::point(crate::verif::site::MPSC_POP_BOUNDARY, self as *const _ as usize);
             let next_block = head.wait_next_block();
             self.head.block.store(next_block, Ordering::Relaxed);
         }
@@ -321,6 +333,8 @@ impl<T> Queue<T> {
             return value;
         }
 
+        #[cfg(may_verif)]
+        crate::verif::point(crate::verif::site::MPSC_BULK_FAST_END, self as *const _ as usize);
         let new_index = index + value.len();
         self.head.index.store(new_index, Ordering::Relaxed);
 
@@ -345,6 +359,8 @@ impl<T> Queue<T> {
             return v;
         }
 
+        #[cfg(may_verif)]
+        crate::verif::point(crate::verif::site::MPSC_BULK_SLOW, self as *const _ as usize);
         let push_index = self.push_index();
         if pop_index >= push_index {
             return SmallVec::new();
